@@ -272,6 +272,9 @@ pub trait Children {
 
     fn c_owned(&self, salt: u64) -> Self::Child;
     fn c_owned_mut(&mut self, salt: u64) -> Self::Child;
+    /// optional arguments with niche-encoded payloads next to a wrapped by-value return (the
+    /// entry is reached through the lifetime-cast getter)
+    fn c_owned_opt(&self, salt: u64, flag: Option<bool>, ch: Option<char>, n: Option<u32>) -> Self::Child;
     fn c_ref(&self) -> &Self::RefChild;
     fn c_mut(&mut self) -> &mut Self::MutChild;
     fn c_group(&self, salt: u64) -> Self::GChild;
@@ -911,6 +914,14 @@ macro_rules! implementor {
             fn c_owned(&self, salt: u64) -> Solo {
                 self.core.enter("c_owned", salt, &[]);
                 Solo::new(self.core.child(salt))
+            }
+            fn c_owned_opt(&self, salt: u64, flag: Option<bool>, ch: Option<char>, n: Option<u32>) -> Solo {
+                let f = match flag { None => 0, Some(false) => 1, Some(true) => 2 };
+                let c = ch.map(|c| c as u64 + 1).unwrap_or(0);
+                let k = n.map(|n| n as u64 + 1).unwrap_or(0);
+                let d = salt ^ (f << 8) ^ (c << 16) ^ (k << 40);
+                self.core.enter("c_owned_opt", d, &[]);
+                Solo::new(self.core.child(d))
             }
             fn c_owned_mut(&mut self, salt: u64) -> Solo {
                 self.core.enter("c_owned_mut", salt, &[]);
